@@ -9,10 +9,15 @@
    plus the renderer of abstract DNs (attribute list + per-attribute style)
    used by the round-trip theorem and by the harness.
 
-   Limits: the Go code converts a segment to []rune before un-escaping, so a
-   byte >= 0x80 in the INPUT is re-encoded (invalid UTF-8 becomes U+FFFD);
-   this model treats every input byte as one character and is therefore only
-   claimed for ASCII input (hex escapes \XX may still PRODUCE any byte).
+   Limits: go-ldap converts a segment to []rune before un-escaping and writes
+   the runes back as UTF-8, and the loop of ParseDN is byte-wise; for input
+   that is VALID UTF-8 this is the identity on bytes, and every character go-ldap
+   tests for is ASCII, so this byte-level model is claimed for all valid UTF-8
+   input (every Subject.String() of crypto/x509 and every identity read from a
+   JSON policy is valid UTF-8); strings.TrimSpace's Unicode white space is
+   modelled by [all_go_space].  Input that is NOT valid UTF-8 is outside the
+   model: each offending byte becomes U+FFFD in the Go code (hex escapes \XX
+   may still PRODUCE any byte; those are copied verbatim by both).
    The "#hex" BER value form of setValue is not modelled (result PUnsupported):
    ParseDistinguishedName rejects every name containing "=#" before calling
    ParseDN, and a value can only start with '#' right after a '='
@@ -43,6 +48,72 @@ Definition hexval (c : ascii) : option N :=
 (* ASCII part of unicode.IsSpace, used by strings.TrimSpace *)
 Definition is_go_space (c : ascii) : bool :=
   let n := N_of_ascii c in ((9 <=? n)%N && (n <=? 13)%N) || (n =? 32)%N.
+
+(* strings.TrimSpace(s) == "": every rune of s is white space (unicode.IsSpace).
+   Byte-level recogniser of the UTF-8 encodings of U+0009..U+000D, U+0020,
+   U+0085, U+00A0, U+1680, U+2000..U+200A, U+2028, U+2029, U+202F, U+205F,
+   U+3000; a byte that does not start one of them (an invalid sequence
+   included: RuneError is not white space) makes the answer false. *)
+Definition space3 (a b c : N) : bool :=
+  ((a =? 225) && (b =? 154) && (c =? 128))%N
+  || ((a =? 226) && (b =? 128) && (((128 <=? c) && (c <=? 138)) || (c =? 168) || (c =? 169) || (c =? 175)))%N
+  || ((a =? 226) && (b =? 129) && (c =? 159))%N
+  || ((a =? 227) && (b =? 128) && (c =? 128))%N.
+
+Fixpoint all_go_space (s : list ascii) : bool :=
+  match s with
+  | [] => true
+  | c :: r =>
+      if is_go_space c then all_go_space r
+      else match r with
+           | [] => false
+           | d :: r1 =>
+               if ((N_of_ascii c =? 194) && ((N_of_ascii d =? 133) || (N_of_ascii d =? 160)))%N
+               then all_go_space r1
+               else match r1 with
+                    | [] => false
+                    | e :: r2 =>
+                        if space3 (N_of_ascii c) (N_of_ascii d) (N_of_ascii e) then all_go_space r2 else false
+                    end
+           end
+  end.
+
+(* unicode/utf8.Valid on bytes (the input contract of the model) *)
+Definition cont (n : N) : bool := ((128 <=? n) && (n <=? 191))%N.
+
+Fixpoint valid_utf8_bytes (s : list ascii) : bool :=
+  match s with
+  | [] => true
+  | c :: r =>
+      let a := N_of_ascii c in
+      if (a <? 128)%N then valid_utf8_bytes r
+      else match r with
+           | [] => false
+           | d :: r1 =>
+               let b := N_of_ascii d in
+               if ((194 <=? a) && (a <=? 223))%N then cont b && valid_utf8_bytes r1
+               else match r1 with
+                    | [] => false
+                    | e :: r2 =>
+                        let c3 := N_of_ascii e in
+                        if ((224 <=? a) && (a <=? 239))%N then
+                          (if (a =? 224)%N then ((160 <=? b) && (b <=? 191))%N
+                           else if (a =? 237)%N then ((128 <=? b) && (b <=? 159))%N
+                           else cont b)
+                          && cont c3 && valid_utf8_bytes r2
+                        else match r2 with
+                             | [] => false
+                             | f :: r3 =>
+                                 if ((240 <=? a) && (a <=? 244))%N then
+                                   (if (a =? 240)%N then ((144 <=? b) && (b <=? 191))%N
+                                    else if (a =? 244)%N then ((128 <=? b) && (b <=? 143))%N
+                                    else cont b)
+                                   && cont c3 && cont (N_of_ascii f) && valid_utf8_bytes r3
+                                 else false
+                             end
+                    end
+           end
+  end.
 
 (* ---------- stripLeadingAndTrailingSpaces ---------- *)
 
@@ -158,7 +229,7 @@ Definition finish (st : pst) : presult :=
        end.
 
 Definition parse_dn_bytes (s : la) : presult :=
-  if forallb is_go_space s then POk []                   (* strings.TrimSpace(str) == "" *)
+  if all_go_space s then POk []                          (* strings.TrimSpace(str) == "" *)
   else match run pst0 s with
        | SOk st => finish st
        | SErr => PErr
